@@ -110,6 +110,9 @@ def gen_plan_c08b(seed, tier, index):
             s['crashes'] = [r.randint(1, max(1, w - 1)) for _ in range(r.choice([1, 1, 2]))]
             s['resume'] = run_spec(r, p2)
         scen.append(s)
+    if many and r.random() < 0.15:
+        # one line far wider than the OCR engine's input budget (3 840 px): it is truncated, on every page alike
+        pages[r.randrange(len(pages))]['lines'].append({'blocks': r.randint(480, 500), 'frames': 8, 'seed': r.randrange(1 << 30), 'amb': 0.4})
     if mode == 'ocr' and r.random() < 0.25:
         # transient out-of-memory inside the OCR network on an early page; a later page has a very wide line
         k = r.randrange(len(pages))
